@@ -93,6 +93,17 @@ def gen_cases(tier, seed):
                  include_screening=True, screening_tolerance=1e-3, max_iterations_per_step=2000)
         drive = {"A": S.field_spec(rng, dev, o, "ramp", b=0.3), "currents": S.current_spec(rng, dev, o, "const" if dev["terminals"] else "none", strength=0.1)}
         cases.append({"layer": "L2", "kind": "reloaded_options", "device": dev, "options": o, "drive": drive, "monitors": ["screening"], "cost": 20})
+    for k in range(1 if tier == "quick" else 2):
+        # a mesh with more than 2^14 edges (~6000 sites): every row of the kernel's output is written at every call
+        # (the NaN-poisoned output buffer of the sanitizer sees rows that a blocked dispatch forgets)
+        dev = zoo.gen_device(rng, n_terminals=0, n_holes=0, probes=0, size="large", smooth=0, film_kind="box", gamma=10.0, xi=1.0)
+        dev["film"].update(w=34.0 + 3 * k, h=26.0, points=150)
+        dev["mesh"].update(max_edge_length=0.82, min_points=None, smooth=0)
+        dev["layer"]["lam"], dev["layer"]["d"] = 6.0, 0.1
+        o = dict(solve_time=4e-3, dt_init=1e-3, dt_max=2e-3, adaptive=True, save_every=10, field_units="mT", current_units="uA", output="file",
+                 include_screening=True, screening_tolerance=1e-2, max_iterations_per_step=200)
+        drive = {"A": S.field_spec(rng, dev, o, "uniform", b=0.02)}
+        cases.append({"layer": "L2", "kind": "large_kernel", "device": dev, "options": o, "drive": drive, "monitors": [], "cost": 120})
     for k in range(6 if tier == "quick" else 40):
         cases.append({"layer": "L1", "n": 60 if tier == "quick" else 150, "seed": int(rng.integers(1 << 30)), "cost": 10})
     return cases
@@ -235,4 +246,7 @@ def run_case(spec):
     C = out["counters"]
     out["classes"] = ["L2/" + spec["kind"], "tol=%g" % spec["options"].get("screening_tolerance", 0), "length_units=" + spec["device"].get("length_units", "um"), "weak_field=" + str(bool(spec.get("weak"))), "seeded=" + str(bool(spec.get("seeded"))), "reloaded_options=" + str(bool(spec.get("second_generation")))] + S.classes_of(spec)[:4]
     out["nontrivial"] = C.get("accepted_steps_checked", 0) >= 5 or C.get("nonconvergence_runs", 0) > 0 or C.get("zero_induced_checks", 0) > 5
+    if spec["kind"] == "large_kernel":
+        C["large_mesh_kernel_calls"] = C.get("kernel_buffer_checks", 0)
+        out["nontrivial"] = C.get("kernel_buffer_checks", 0) > 0 and out.get("sample", {}).get("sites", 0) > 5000
     return out
